@@ -323,6 +323,20 @@ def r8_cursor_discipline(ctx):
         ctx.vanished("cursor-filled lists" + ": " + f"only {len(sites)} cursor stores found (STV steps, random_transfer, tiebroken_ranking expected)")
 
 
+def r9_selector_partition(ctx):
+    """STV's one-by-one step carries forward the piles of exactly the candidates the selector returns as remaining;
+    a candidate missing from that list loses its pile (weight vanishes without being exhausted).  C10.R5's shape
+    rules on elect_cands_from_set_ranking decide that elected + remaining is the whole input, in order."""
+    from rules import c10
+    sub = type(ctx)(ctx.prog, ctx.prop, ctx.tier)
+    c10.r5_groups_obey(sub)
+    for o in sub.obs:
+        o.rule = "C03.R9"
+        ctx.obs.append(o)
+    if len(sub.obs) < 4:
+        ctx.vanished(f"selector obligations: only {len(sub.obs)}")
+
+
 RULES = [
     ("C03.R1", r1_winner_filtered, 5, "the winner is filtered out of every position; emptied positions dropped; siblings agree"),
     ("C03.R2", r2_order, 3, "the rebuilt ranking keeps the source order (order-preserving pipeline)"),
@@ -331,6 +345,7 @@ RULES = [
     ("C03.R5", r5_weight_provenance, 9, "every Ballot weight on the STV path is copy / scaled copy / unit / zero / accumulator"),
     ("C03.R6", r6_dropped, 2, "ballots leave the result only through `ranking and weight > 0`"),
     ("C03.R7", r7_surplus_factor, 3, "fractional rule: weight*(tally-threshold)/tally on winner-first ballots, full weight otherwise (formula normal form)"),
+    ("C03.R9", r9_selector_partition, 4, "prerequisite: the selector's elected + remaining partition its input (no candidate's pile is lost)"),
     ("C03.R8", r8_cursor_discipline, 10, "every cursor-filled ballot list advances its cursor by exactly what was written, in the same block"),
 ]
 
